@@ -98,6 +98,8 @@ def boot():
                  'stevedore', 'oslo_messaging', 'alembic'):
         pylogging.getLogger(name).setLevel(pylogging.WARNING)
     pylogging.getLogger('workflow_trace').setLevel(pylogging.ERROR)
+    pylogging.getLogger('mistral.engine.task_handler').setLevel(
+        pylogging.INFO)
 
     m = _NS()
     for k, v in list(locals().items()):
@@ -217,13 +219,23 @@ class LogCapture(pylogging.Handler):
     an exception (LOG.exception swallow points)."""
 
     def __init__(self):
-        super(LogCapture, self).__init__(level=pylogging.WARNING)
+        super(LogCapture, self).__init__(level=pylogging.INFO)
         self.records = []
 
     def emit(self, record):
         w = World.current
         if w is None:
             return
+        try:
+            msg = record.getMessage()
+        except Exception:
+            msg = ''
+        if 'likely stuck' in msg:
+            w.sim.count('probe:integrity_repair')
+        elif 'still in WAITING state' in msg:
+            w.sim.count('probe:refresh_saw_waiting')
+        elif 'Unable to capture a scheduled job' in msg:
+            w.sim.count('probe:memory_capture_failed')
         if record.exc_info and record.exc_info[1] is not None:
             sim = w.sim
             t = sim.me()
